@@ -17,13 +17,7 @@ let parse_snapshot (s : string) : ((bytes * n) * bytes) list =
 let last_snapshot (obs : string list) : ((bytes * n) * bytes) list option =
   List.fold_left (fun acc o -> if String.length o > 1 && o.[0] = 's' && o.[1] = '{' then Some (parse_snapshot o) else acc) None obs
 
-(* an archive next to its original - what an interrupted or failed compression leaves until the next cleanup -
-   holds nothing that the (complete) original does not hold: a reader of the files ignores it *)
-let without_shadowed_archives (snap : ((bytes * n) * bytes) list) : ((bytes * n) * bytes) list =
-  List.filter (fun ((nm, _), _) ->
-      match strip_suffix (dot :: gz_sfx) nm with
-      | Some orig -> not (List.exists (fun ((m, _), _) -> beq m orig) snap)
-      | None -> true) snap
+(* without_shadowed_archives: defined in Coq (Oracles/O_Stream.v) *)
 
 let annotations (pre : string list) : (string * string) list =
   List.filter_map (fun t -> match String.index_opt t '=' with
